@@ -146,9 +146,35 @@ func Load(cfg Config) (*Prog, error) {
 	for fn := range P.all {
 		if P.InModule(fn) {
 			P.NFuncs++
+			canonConstRight(fn)
+			forwardCapturedCells(fn)
 		}
 	}
 	return P, nil
+}
+
+// canonConstRight rewrites every comparison `const op x` of a module function into `x op' const` (in place:
+// the operands stay the same two values, so no referrer list changes). `0 == r.index`, `nil != err` and
+// `0 >= level` are the same tests as their mirror images; the rules read comparisons in one orientation.
+func canonConstRight(fn *ssa.Function) {
+	flip := map[token.Token]token.Token{token.EQL: token.EQL, token.NEQ: token.NEQ, token.LSS: token.GTR, token.GTR: token.LSS, token.LEQ: token.GEQ, token.GEQ: token.LEQ}
+	for _, b := range fn.Blocks {
+		for _, in := range b.Instrs {
+			bo, ok := in.(*ssa.BinOp)
+			if !ok {
+				continue
+			}
+			op, isCmp := flip[bo.Op]
+			if !isCmp {
+				continue
+			}
+			_, xc := bo.X.(*ssa.Const)
+			_, yc := bo.Y.(*ssa.Const)
+			if xc && !yc {
+				bo.X, bo.Y, bo.Op = bo.Y, bo.X, op
+			}
+		}
+	}
 }
 
 // CallGraph builds (once) the whole-program call graph: VTA refined over CHA, or
@@ -354,4 +380,121 @@ func (p *Prog) TypesInfo(rel string) *types.Info {
 		}
 	}
 	return nil
+}
+
+// forwardCapturedCells: a local variable that a closure captures lives in a heap cell, and every use in its
+// own function becomes a load of that cell. When the cell is assigned exactly once (the `x := ...` of its
+// declaration), no closure stores to it and its address goes nowhere else, each load that the store dominates
+// IS the stored value: its uses are rewired to that value, so that wrapping a statement into a closure
+// (`defer x.Close()` -> `defer func() { x.Close() }()`) does not change what the rules see in the function.
+func forwardCapturedCells(fn *ssa.Function) {
+	for _, b := range fn.Blocks {
+		for _, in := range b.Instrs {
+			al, ok := in.(*ssa.Alloc)
+			if !ok || al.Referrers() == nil {
+				continue
+			}
+			var st *ssa.Store
+			var loads []*ssa.UnOp
+			captured, okAll := false, true
+			for _, ref := range *al.Referrers() {
+				switch x := ref.(type) {
+				case *ssa.Store:
+					if x.Addr != ssa.Value(al) || x.Val == ssa.Value(al) || st != nil {
+						okAll = false
+					}
+					st = x
+				case *ssa.UnOp:
+					if x.Op != token.MUL {
+						okAll = false
+					}
+					loads = append(loads, x)
+				case *ssa.MakeClosure:
+					captured = true
+					cf, _ := x.Fn.(*ssa.Function)
+					if cf == nil {
+						okAll = false
+						break
+					}
+					for i, bnd := range x.Bindings {
+						if bnd != ssa.Value(al) || i >= len(cf.FreeVars) {
+							continue
+						}
+						if !freeVarReadOnly(cf.FreeVars[i], 0) {
+							okAll = false
+						}
+					}
+				case *ssa.DebugRef:
+				default:
+					okAll = false
+				}
+			}
+			if !okAll || !captured || st == nil || len(loads) == 0 {
+				continue
+			}
+			for _, ld := range loads {
+				if !instrDominates(st, ld) || ld.Referrers() == nil {
+					continue
+				}
+				users := append([]ssa.Instruction(nil), (*ld.Referrers())...)
+				for _, u := range users {
+					var rands []*ssa.Value
+					for _, r := range u.Operands(rands) {
+						if r != nil && *r == ssa.Value(ld) {
+							*r = st.Val
+							if rr := st.Val.Referrers(); rr != nil {
+								*rr = append(*rr, u)
+							}
+						}
+					}
+				}
+				*ld.Referrers() = nil
+			}
+		}
+	}
+}
+
+// freeVarReadOnly: the closure (and the closures it passes the variable on to) only loads the captured cell.
+func freeVarReadOnly(fv *ssa.FreeVar, depth int) bool {
+	if depth > 4 || fv.Referrers() == nil {
+		return depth <= 4
+	}
+	for _, ref := range *fv.Referrers() {
+		switch x := ref.(type) {
+		case *ssa.UnOp:
+			if x.Op != token.MUL {
+				return false
+			}
+		case *ssa.MakeClosure:
+			cf, _ := x.Fn.(*ssa.Function)
+			if cf == nil {
+				return false
+			}
+			for i, bnd := range x.Bindings {
+				if bnd == ssa.Value(fv) && i < len(cf.FreeVars) && !freeVarReadOnly(cf.FreeVars[i], depth+1) {
+					return false
+				}
+			}
+		case *ssa.DebugRef:
+		default:
+			return false
+		}
+	}
+	return true
+}
+
+// instrDominates: a is executed before b on every path to b.
+func instrDominates(a, b ssa.Instruction) bool {
+	if a.Block() == b.Block() {
+		for _, in := range a.Block().Instrs {
+			if in == a {
+				return true
+			}
+			if in == b {
+				return false
+			}
+		}
+		return false
+	}
+	return a.Block().Dominates(b.Block())
 }
